@@ -146,7 +146,8 @@ class FakeAtlas:
         if not self.tmpdir:
             return None
         try:
-            return sorted((n, os.path.getsize(os.path.join(self.tmpdir, n))) for n in os.listdir(self.tmpdir))
+            # (files an earlier, killed run left behind - planted by the harness under a recognisable name - are not this run's)
+            return sorted((n, os.path.getsize(os.path.join(self.tmpdir, n))) for n in os.listdir(self.tmpdir) if "stale0" not in n)
         except OSError:
             return []
 
@@ -231,7 +232,12 @@ class FakeAtlas:
         if fault:
             rec["fault"] = list(fault)
             if fault[0] == "status":
-                body = json.dumps({"error": fault[1], "detail": "scripted failure", "you_sent": head if (len(fault) > 2 and fault[2]) else ""}).encode()
+                # the body Atlas sends with such an answer: an errorCode the client may want to explain (rotating through the usual ones)
+                codes = ["IP_ADDRESS_NOT_ON_ACCESS_LIST", "USER_UNAUTHORIZED", "ORG_REQUIRES_ACCESS_LIST", "RESOURCE_NOT_FOUND", "CLUSTER_NOT_FOUND",
+                         "NOT_ATLAS_GROUP", "RATE_LIMITED", "INVALID_ATTRIBUTE", "UNEXPECTED_ERROR"]
+                ec = codes[(fault[1] + len(self.log) + len(sc.project)) % len(codes)]
+                body = json.dumps({"error": fault[1], "errorCode": ec, "reason": {401: "Unauthorized", 403: "Forbidden", 404: "Not Found"}.get(fault[1], "Error"),
+                                   "detail": "scripted failure (%s)" % ec, "parameters": [sc.project], "you_sent": head if (len(fault) > 2 and fault[2]) else ""}).encode()
                 return send(fault[1], body, ["Content-Type: application/json"])
             if fault[0] == "reset":
                 try:
